@@ -6,7 +6,8 @@ clang JSON AST of /repo's working tree (src/Z/*.cpp).
 What is read (anything else in these bodies fails loudly):
   * FreeSpaceCSR / ResistiveWall / ConstImpedance ::__calcImpedance - a vector `rv` built by local
     `const` declarations, counting loops `for (size_t i = LO; i < HI | i <= HI; i++) rv.push_back(E);`
-    and `rv.resize(K, V)`; `rv.reserve` is ignored; `return rv`.
+    and `rv.resize(K, V)`; or a vector of n equal samples `rv(n, V)` filled by counting loops `rv[I] = E;`;
+    `rv.reserve` is ignored; `return rv`.
   * the constructors of FreeSpaceCSR, ResistiveWall, ConstImpedance (which arguments go to
     __calcImpedance), CollimatorImpedance (which arguments go to ConstImpedance, incl. the constant
     `{Z0/pi*log(outer/inner), 0}`) and Impedance(nfreqs, f_max) (`std::vector<impedance_t>(nfreqs, 0)`).
@@ -16,7 +17,9 @@ What is read (anything else in these bodies fails loudly):
     `if`/`else`, `Display::printText` (ignored), `return rv`.
 Emitted: Gallina definitions over a generic field K with the transcendental leaves (std::pow, sqrt, log,
 abs, pi, physcons::c, Impedance::Z0), the comparisons, the complex addition and the parallel-plates
-constructor (Airy functions: not translated) supplied by a record `Leaves K` (Model/ImpKit.v).  Integer (size_t) arithmetic becomes Z arithmetic (`/` is integer division; unsigned
+sample value (Airy functions: only the loop skeleton of ParallelPlatesCSR::__calcImpedance is translated - a vector
+of n zeros and one counting loop `rv[i] = ...` whose other statements do not touch the vector) supplied by a record
+`Leaves K` (Model/ImpKit.v).  Integer (size_t) arithmetic becomes Z arithmetic (`/` is integer division; unsigned
 subtraction is Z subtraction - the theorems assume n >= 1 where the code computes n-1), an
 integer-to-floating conversion becomes `fz`."""
 import sys, os
@@ -252,14 +255,14 @@ class Tr:
                     return "V", "[]"
                 if tys == ["Z", "C"]:
                     return "V", "(fill %s %s)" % tuple(sa)
+                if tys == ["Z"]:
+                    return "V", "(fill %s (0, 0))" % sa[0]
                 raise TranslateError("vector constructed from (%s)" % ",".join(tys))
             q = qtype(n).replace("const ", "").replace("vfps::", "").strip()
             if q in CTORS:
                 want = CTORS[q]
                 if tys != want:
                     raise TranslateError("%s constructed from (%s), expected (%s)" % (q, ",".join(tys), ",".join(want)))
-                if q == "ParallelPlatesCSR":
-                    return "V", "(l_PP E %s)" % " ".join(sa)
                 return "V", "(%s_ctor %s)" % (q, " ".join(sa))
             if q == "Impedance" and tys[:1] == ["F"]:
                 return "V", "(file_data %s)" % sa[0]
@@ -272,8 +275,8 @@ class Tr:
         raise TranslateError("expression kind %s" % k)
 
 
-# class -> constructor parameter types (without the OpenCL handle); ParallelPlatesCSR is not translated
-CTORS = {"ParallelPlatesCSR": ["Z", "K", "K", "K"]}
+# class -> constructor parameter types (without the OpenCL handle), filled by ctor_function
+CTORS = {}
 
 
 def params_of(d, strict=True):
@@ -344,8 +347,29 @@ def member_call(s):
     return obj["referencedDecl"]["name"], me.get("name"), kids(s)[1:]
 
 
-def calc_function(src, cls, out):
-    """<cls>::__calcImpedance: a vector built by push_back loops / resize"""
+def refers_to(n, name):
+    return bool(find_in(n, lambda x: x.get("kind") == "DeclRefExpr" and (x.get("referencedDecl") or {}).get("name") == name))
+
+
+def assignment_to_cell(st, vec, tr, env):
+    """rv[IDX] = E  ->  (IDX term, E node) or None"""
+    u, _ = unwrap(st)
+    if u.get("kind") != "CXXOperatorCallExpr" or callee_name(u) != "operator=" or len(kids(u)) != 3:
+        return None
+    lhs, _ = unwrap(kids(u)[1])
+    if lhs.get("kind") != "CXXOperatorCallExpr" or callee_name(lhs) != "operator[]":
+        return None
+    tv, vv = tr.ex(kids(lhs)[1], env)
+    ti, idx = tr.ex(kids(lhs)[2], env)
+    if (tv, vv, ti) != ("V", ident(vec), "Z"):
+        return None
+    return idx, kids(u)[2]
+
+
+def calc_function(src, cls, out, opaque=None):
+    """<cls>::__calcImpedance: a vector built by push_back loops / resize, or a pre-sized vector filled by a counting
+    loop `rv[IDX] = E`.  With opaque=<leaf>, statements that do not mention the vector are skipped and the assigned
+    value becomes the leaf applied to the parameters and the counter (ParallelPlatesCSR: Airy functions)."""
     docs = ast_of(src, cls + "::__calcImpedance")
     d, body = body_of(docs, "__calcImpedance")
     ps = params_of(d)
@@ -362,16 +386,20 @@ def calc_function(src, cls, out):
             for v in kids(s):
                 if v.get("kind") != "VarDecl":
                     raise TranslateError("declaration kind %s" % v.get("kind"))
-                t = ty_of(qtype(v))
+                if opaque and vec is not None and not refers_to(v, vec):
+                    continue
+                t = ty_of(qtype(v), strict=not opaque)
                 if t == "V":
                     if vec is not None:
                         raise TranslateError("%s::__calcImpedance: two vectors" % cls)
                     te, e = tr.ex(kids(v)[0], env) if kids(v) else ("V", "[]")
-                    if e != "[]":
-                        raise TranslateError("%s::__calcImpedance: the vector does not start empty" % cls)
+                    if te != "V" or not (e == "[]" or e.startswith("(fill ")):
+                        raise TranslateError("%s::__calcImpedance: the vector starts neither empty nor as n equal samples" % cls)
                     vec = v["name"]
                     env[vec] = ("V", ident(vec))
-                    lines.append("let %s := (@nil (cpx K)) in" % ident(vec))
+                    lines.append("let %s := %s in" % (ident(vec), "(@nil (cpx K))" if e == "[]" else e))
+                elif opaque:
+                    continue
                 else:
                     if "const" not in qtype(v):
                         raise TranslateError("%s::__calcImpedance: local %s is not const" % (cls, v["name"]))
@@ -381,6 +409,8 @@ def calc_function(src, cls, out):
                     env[v["name"]] = (t, ident(v["name"]))
                     lines.append("let %s := %s in" % (ident(v["name"]), e))
             continue
+        if vec is None:
+            raise TranslateError("%s::__calcImpedance: statement before the vector is declared" % cls)
         mc = member_call(s)
         if mc and mc[0] == vec and mc[1] == "reserve":
             continue
@@ -392,17 +422,32 @@ def calc_function(src, cls, out):
             continue
         if k == "ForStmt":
             iv, lo, hi, bs = loop_parts(s, tr, env)
-            if len(bs) != 1:
-                raise TranslateError("%s::__calcImpedance: loop body is not one push_back" % cls)
-            mc = member_call(bs[0])
-            if not (mc and mc[0] == vec and mc[1] == "push_back" and len(mc[2]) == 1):
-                raise TranslateError("%s::__calcImpedance: loop body is not %s.push_back(...)" % (cls, vec))
             env2 = dict(env)
             env2[iv] = ("Z", ident(iv))
-            te, e = tr.ex(mc[2][0], env2)
-            if te != "C":
-                raise TranslateError("push_back of a non-complex value")
-            lines.append("let %s := %s ++ seg %s %s (fun %s : Z => %s) in" % (ident(vec), ident(vec), lo, hi, ident(iv), e))
+            touching = [b for b in bs if refers_to(b, vec)]
+            if len(touching) != 1 or touching[0] is not bs[-1] or (len(bs) != 1 and not opaque):
+                raise TranslateError("%s::__calcImpedance: loop body is not one statement on %s" % (cls, vec))
+            mc = member_call(bs[-1])
+            if mc and mc[0] == vec and mc[1] == "push_back" and len(mc[2]) == 1 and not opaque:
+                te, e = tr.ex(mc[2][0], env2)
+                if te != "C":
+                    raise TranslateError("push_back of a non-complex value")
+                lines.append("let %s := %s ++ seg %s %s (fun %s : Z => %s) in" % (ident(vec), ident(vec), lo, hi, ident(iv), e))
+                continue
+            asg = assignment_to_cell(bs[-1], vec, tr, env2)
+            if asg is None:
+                raise TranslateError("%s::__calcImpedance: loop body is neither %s.push_back(...) nor %s[...] = ..." % (cls, vec, vec))
+            idx, en = asg
+            if opaque:
+                if refers_to(en, vec):
+                    raise TranslateError("%s::__calcImpedance: the assigned value reads the vector" % cls)
+                e = "(%s E %s %s)" % (opaque, " ".join(ident(nm) for nm, t in ps if t != "P"), ident(iv))
+            else:
+                te, e = tr.ex(en, env2)
+                if te != "C":
+                    raise TranslateError("assignment of a non-complex value")
+            lines.append("let %s := for_upd %s %s (fun (%s : Z) (%s : list (cpx K)) => setz %s %s %s) %s in"
+                         % (ident(vec), lo, hi, ident(iv), ident(vec), ident(vec), idx, e, ident(vec)))
             continue
         if k == "ReturnStmt":
             te, e = tr.ex(kids(s)[0], env)
@@ -410,10 +455,12 @@ def calc_function(src, cls, out):
                 raise TranslateError("%s::__calcImpedance does not return its vector" % cls)
             ret = e
             continue
+        if opaque and not refers_to(s, vec):
+            continue
         raise TranslateError("%s::__calcImpedance: statement %s not understood" % (cls, k))
     if ret is None:
         raise TranslateError("%s::__calcImpedance: no return" % cls)
-    out.append("(* %s::__calcImpedance (%s) *)" % (cls, src))
+    out.append("(* %s::__calcImpedance (%s)%s *)" % (cls, src, " - loop skeleton only, the sample value is the leaf %s" % opaque if opaque else ""))
     out.append("Definition %s_calc (K : Fld) (E : Leaves K) %s : list (cpx K) :=" % (cls, sig(ps)))
     out += ["  " + l for l in lines] + ["  %s." % ret, ""]
     return ps
@@ -670,14 +717,13 @@ def factory(out):
 
 
 def translate():
-    for k in list(CTORS):
-        if k != "ParallelPlatesCSR":
-            del CTORS[k]
+    CTORS.clear()
     out = ["(* GENERATED on every run by translate/imp2coq.py from src/Z/FreeSpaceCSR.cpp, ResistiveWall.cpp,",
            "   ConstImpedance.cpp, CollimatorImpedance.cpp, Impedance.cpp, ImpedanceFactory.cpp. Do not edit.",
            "   Leaves (E : Leaves K): l_pw = std::pow, l_sq = std::sqrt, l_lg = std::log, l_ab = std::abs,",
            "   l_pi = boost pi<double>(), l_c = physcons::c, l_Z0 = Impedance::Z0, l_ltb/l_leb/l_eqb = <, <=, ==,",
-           "   l_cadd = std::complex<float>::operator+, l_PP = ParallelPlatesCSR(n, f0, f_max, g) (not translated). *)",
+           "   l_cadd = std::complex<float>::operator+, l_PPs = sample i of ParallelPlatesCSR(n, f0, f_max, g) (Airy functions:",
+           "   the value is not translated, only the loop that stores it). *)",
            "From Coq Require Import List ZArith Bool.",
            "From Inovesa Require Import Base.FieldKit Model.Impedance Model.ImpKit.",
            "Import ListNotations.",
@@ -686,34 +732,36 @@ def translate():
            ""]
     zeros_ctor(out)
     add_assign(out)
-    for src, cls in (("src/Z/FreeSpaceCSR.cpp", "FreeSpaceCSR"), ("src/Z/ResistiveWall.cpp", "ResistiveWall"),
-                     ("src/Z/ConstImpedance.cpp", "ConstImpedance")):
-        cp = calc_function(src, cls, out)
+    for src, cls, opaque in (("src/Z/FreeSpaceCSR.cpp", "FreeSpaceCSR", None), ("src/Z/ResistiveWall.cpp", "ResistiveWall", None),
+                             ("src/Z/ConstImpedance.cpp", "ConstImpedance", None),
+                             ("src/Z/ParallelPlatesCSR.cpp", "ParallelPlatesCSR", "l_PPs")):
+        cp = calc_function(src, cls, out, opaque)
         ctor_function(src, cls, cp, out)
+    if CTORS["ParallelPlatesCSR"] != ["Z", "K", "K", "K"]:
+        raise TranslateError("ParallelPlatesCSR is not constructed from (size_t, frequency, frequency, gap)")
     collimator_ctor(out)
     ps, text = factory(out)
     # the factory with the constructors of the contributions as parameters (the correspondence runs it with the
     # implementation's own vectors), and closed with the generated constructors
+    FOUR = ("ParallelPlatesCSR", "FreeSpaceCSR", "ResistiveWall", "CollimatorImpedance")
     text_with = text
-    for cls in ("FreeSpaceCSR", "ResistiveWall", "CollimatorImpedance"):
+    for cls in FOUR:
         text_with = text_with.replace("(%s_ctor " % cls, "(%s_ctor' " % cls)
-    text_with = text_with.replace("(l_PP E ", "(PP' ")
-    if "ConstImpedance_ctor" in text or any(("(%s_ctor " % cls) not in text for cls in ("FreeSpaceCSR", "ResistiveWall", "CollimatorImpedance")) \
-            or "(l_PP E " not in text:
+    if "(ConstImpedance_ctor " in text or any(("(%s_ctor " % cls) not in text for cls in FOUR):
         raise TranslateError("makeImpedance does not construct each of ParallelPlatesCSR, FreeSpaceCSR, ResistiveWall, CollimatorImpedance")
 
     def fty(cls):
         return " -> ".join(COQTY[t] for t in CTORS[cls]) + " -> list (cpx K)"
     out.append("(* vfps::makeImpedance (src/Z/ImpedanceFactory.cpp); impedance_file = None for the empty name *)")
     out.append("Definition makeImpedance_with (K : Fld) (E : Leaves K)")
-    out.append("    (PP' : %s) (FreeSpaceCSR_ctor' : %s)" % (fty("ParallelPlatesCSR"), fty("FreeSpaceCSR")))
+    out.append("    (ParallelPlatesCSR_ctor' : %s) (FreeSpaceCSR_ctor' : %s)" % (fty("ParallelPlatesCSR"), fty("FreeSpaceCSR")))
     out.append("    (ResistiveWall_ctor' : %s)" % fty("ResistiveWall"))
     out.append("    (CollimatorImpedance_ctor' : %s)" % fty("CollimatorImpedance"))
     out.append("    %s : option (list (cpx K)) :=" % sig(ps))
     out.append(text_with + ".")
     out.append("")
     out.append("Definition makeImpedance (K : Fld) (E : Leaves K) : %s -> option (list (cpx K)) :=" % " -> ".join(COQTY[t] for _, t in ps if t != "P"))
-    out.append("  makeImpedance_with K E (l_PP E) (FreeSpaceCSR_ctor K E) (ResistiveWall_ctor K E) (CollimatorImpedance_ctor K E).")
+    out.append("  makeImpedance_with K E (ParallelPlatesCSR_ctor K E) (FreeSpaceCSR_ctor K E) (ResistiveWall_ctor K E) (CollimatorImpedance_ctor K E).")
     return "\n".join(out) + "\n"
 
 
